@@ -73,6 +73,27 @@ def run_entry(e, repo):
         shutil.rmtree(d, ignore_errors=True)
 
 
+def for_property(prop, repo, jobs=16):
+    """Thorough tier: how the checker of `prop` behaves on its one-construct variants of the CURRENT tree.
+    Advisory (recorded in the evidence, printed as NOTE lines); never part of the verdict.  A variant whose
+    pattern no longer exists on the tree is skipped."""
+    entries = [e for e in load_corpus() if e['property'] == prop]
+    with ThreadPoolExecutor(max_workers=jobs) as ex:
+        results = list(ex.map(lambda e: run_entry(e, repo), entries))
+    out = {'mutants': 0, 'mutants_reported': 0, 'benign': 0, 'benign_silent': 0, 'skipped': 0, 'not_as_expected': []}
+    for e, status, detail in results:
+        if status == 'BROKEN':
+            out['skipped'] += 1
+            continue
+        kind = 'mutants' if e['expect'] == 'report' else 'benign'
+        out[kind] += 1
+        if status == 'ok':
+            out['mutants_reported' if kind == 'mutants' else 'benign_silent'] += 1
+        else:
+            out['not_as_expected'].append('%s: %s' % (e['id'], status))
+    return out
+
+
 def main(argv):
     repo = '/repo'
     jobs = 16
